@@ -128,7 +128,18 @@ func checkC12(c *Ctx) {
 
 	// ---- 4. concurrent schedules from TLC, forced on the real code through the gates
 	ngate, ndiverged := 0, 0
+	gateGiveUp := false
 	gateCb := func(raw json.RawMessage) {
+		if gateGiveUp {
+			return
+		}
+		if ndiverged >= 12 || (ndiverged >= 6 && ndiverged*2 > ngate) {
+			// the code no longer passes the hook sites in the order the model has them: every further schedule would
+			// only cost its timeouts. The stage ends inconclusive; the other stages still judge the code.
+			gateGiveUp = true
+			c.Inconclusive("gate replay given up after %d of %d schedules diverged: hooks missing or moved?", ndiverged, ngate)
+			return
+		}
 		var b bwsBeh
 		if err := json.Unmarshal(raw, &b); err != nil {
 			c.Inconclusive("bad BWS behaviour: %v", err)
